@@ -924,7 +924,7 @@ def to_poly(e: expr.Expr, conds: Conditions) -> Polynomial:
         a, = e.args
         if a.is_fun() and a.func_name == "exp":
             return to_poly(a.args[0], conds)
-        elif a.is_power() and a.args[1].is_constant():
+        elif a.is_power() and a.args[1].is_constant() and conds.is_positive(a.args[0]):
             return Polynomial([Monomial(to_const_poly(a.args[1]), [(expr.log(normalize(a.args[0], conds)), 1)], conds)], conds)
         elif a.is_divides() and a.args[0] == expr.Const(1):
             return to_poly(expr.Fun("log", a.args[1] ** expr.Const(-1)), conds)
